@@ -482,7 +482,7 @@ class Ctx:
         with open(os.path.join(OUT, "evidence", self.prop + ".json"), "w") as fh:
             json.dump(ev, fh, indent=1, default=str)
         for sig, what in self.known_hits:
-            print("KNOWN-FINDING: property=%s %s [%s]" % (self.prop, what, sig))
+            print("KNOWN-FINDING: property=%s %s [%s]" % (self.prop, (what if len(what) <= 320 else what[:317] + "..."), sig))
         for sig, what, path, found in sorted(self.violations, key=lambda v: not v[3])[:20]:      # concrete failing inputs first
             tail = "" if found else " no-failing-input-found"
             print("VIOLATION property=%s replay=%s%s" % (self.prop, path, tail))
